@@ -179,6 +179,7 @@ fn child() {
                 sched::enter(t);
                 let r = vh_common::catch(|| {
                     let mut cur: Option<(u64, Dispatch, dispatch::DefaultGuard)> = None;
+                    let mut my_flag: Option<Arc<AtomicBool>> = None;
                     let mut my_global: u64 = 0; // the global default this thread itself installed (it completed before its later hits)
                     let mut shared_guard = shared.as_ref().map(dispatch::set_default);
                     for op in script.as_array().unwrap() {
@@ -191,6 +192,10 @@ fn child() {
                                 let d = op["d"].as_u64().unwrap();
                                 let (mut c, _) = RecCollector::new(d, filters[&d].clone(), log.clone());
                                 c.log_filtering = true;
+                                if filters[&d].kind == "sw" {
+                                    c.flag.store(false, Ordering::SeqCst); // a switchable collector starts switched off
+                                }
+                                my_flag = Some(c.flag.clone());
                                 let disp = Dispatch::new(c);
                                 let g = dispatch::set_default(&disp);
                                 cur = Some((d, disp, g));
@@ -202,6 +207,12 @@ fn child() {
                                 }
                             }
                             "rebuild" => tracing_core::callsite::rebuild_interest_cache(),
+                            // flip this thread's own switchable collector, then rebuild the cache as its documentation demands
+                            "switch" => {
+                                my_flag.as_ref().unwrap().store(op["on"].as_bool().unwrap(), Ordering::SeqCst);
+                                o["d"] = json!(cur.as_ref().map(|c| c.0).unwrap_or(0));
+                                tracing_core::callsite::rebuild_interest_cache();
+                            }
                             "set_global" => {
                                 let d = op["d"].as_u64().unwrap();
                                 let (mut c, _) = RecCollector::new(d, filters[&d].clone(), log.clone());
